@@ -154,7 +154,7 @@ def main():
         verified = set()
         for u in units:
             for m in unit_res[u].metas:
-                if m['mode'] == 'verified':
+                if m['mode'] == 'verified' and not m.get('demoted'):     # a demoted function is not proved: scan it
                     own = m.get('owner')
                     ty = None
                     if own:
